@@ -298,13 +298,13 @@ def main():
             jobs.append((bindir, n, idxs[half:], 0, []))
         else:
             jobs.append((bindir, n, idxs, 0, rts))
-    larger = [rng.choice([65, 100, 127, 128, 129, 255, 256, 257, 511, 512, 1000, 1023, 1024]) for _ in range(12 if a.tier == 'quick' else 60)]
+    larger = [rng.choice([65, 100, 127, 128, 129, 255, 256, 257, 511, 512, 1000, 1023, 1024]) for _ in range(12 if a.tier == 'quick' else 200)]
     for j, n in enumerate(larger):
         idxs = sorted(set([0, 1, n - 1, n - 2, n // 2] + [rng.randrange(n) for _ in range(6)]))
         idxs = [i for i in idxs if 0 <= i < n]
         jobs.append((bindir, n, idxs, 100 + j, ['scriptpath'] if j % 4 == 0 else []))
     if a.tier == 'thorough':
-        for rep_i in range(1, 4):
+        for rep_i in range(1, 7):
             for n in range(1, 33):
                 jobs.append((bindir, n, list(range(n)), rep_i, ['keypath', 'scriptpath'] if n % 4 == 1 else []))
     for r in parallel(tree_case, jobs):
